@@ -43,7 +43,7 @@ def expectations(patch):
                 if m.group(1) == 'SILENT':
                     out.append((filepid, None))
                 else:
-                    out.append((filepid, re.match(r'R\d+\.\d+', m.group(1)).group(0)))
+                    out.append((filepid, ''))     # any violation of that property (the parts' messages carry no rule id)
     return out
 
 
